@@ -47,6 +47,12 @@ fn main() {
         }
         replay_case = r.get("case").cloned();
     }
+    // debugging aid: run only one stratum (no evidence is written in this mode)
+    if replay_case.is_none() {
+        if let Ok(s) = std::env::var("TCV_ONLY") {
+            replay_case = Some(serde_json::json!({ "stratum": s }));
+        }
+    }
     let verif_dir = std::env::var("VERIF_DIR").map(std::path::PathBuf::from).unwrap_or_else(|_| "/verif".into());
     let ctx = Ctx { id: id.clone(), tier, seed, replay: replay_case, verif_dir };
     // generous wall-clock watchdog: truncates the exploration, never decides a verdict
